@@ -41,11 +41,11 @@ PROPS = {
     'C10': dict(streams=['conv', 'wconv', 'note', 'scale', 'sizes', 'repeat'], modules=['C10', 'IO']),
     'C11': dict(streams=['variants', 'lex', 'sizes']),
     'C12': dict(streams=['repeat', 'chain', 'scale'], race=True, modules=['C12', 'IO']),
-    'C13': dict(streams=['scale', 'diatonic', 'conv']),
+    'C13': dict(streams=['scale', 'diatonic', 'conv', 'write']),
     'C14': dict(streams=['chain', 'keyconv'], modules=['C14', 'IO']),
     'C15': dict(streams=['note', 'describe', 'cdescribe', 'repeat']),
     'C16': dict(streams=['dict', 'note', 'write']),
-    'C17': dict(streams=['scale', 'diatonic']),
+    'C17': dict(streams=['scale', 'diatonic', 'conv']),
 }
 
 class Infra(Exception):
@@ -392,9 +392,9 @@ def check_property(pid, tier, seed):
                         problems.append(dict(kind='leanchecker', detail=(p.stdout + p.stderr).decode(errors='replace')[-600:]))
                     else:
                         extra_cov.setdefault('leanchecker', []).append('Crd.Props.' + m)
-        # an obligation no longer checks: widen the search for a concrete failing input (longer inputs, more repeats)
+        # the obligation about how input is read no longer checks: widen the search for a concrete failing input (longer inputs)
         os.environ.pop('CRD_ESCALATE', None)
-        if any(p['kind'] in ('proof', 'model', 'regenerate') for p in problems):
+        if any(p['kind'] == 'proof' and isinstance(p['detail'], dict) and 'Props/IO.lean' in str(p['detail'].get('file')) for p in problems):
             os.environ['CRD_ESCALATE'] = '1'
         for h in scan_forbidden():
             problems.append(dict(kind='forbidden-construct', detail=h))
